@@ -91,13 +91,16 @@ namespace rkcommon {
           RKCOMMON_VERIF_POINT("loop.alive_checked", l.get());
 #endif
 
+          // Publish insideLoopBody before testing shouldBeRunning: stop() clears
+          // shouldBeRunning and then waits on insideLoopBody, so either this
+          // thread sees the cleared flag or stop() sees that the body may run.
+          l->insideLoopBody = true;
+#ifdef RKCOMMON_VERIF
+          RKCOMMON_VERIF_POINT("loop.inside_published", l.get());
+#endif
           if (l->shouldBeRunning) {
 #ifdef RKCOMMON_VERIF
             RKCOMMON_VERIF_POINT("loop.running_checked", l.get());
-#endif
-            l->insideLoopBody = true;
-#ifdef RKCOMMON_VERIF
-            RKCOMMON_VERIF_POINT("loop.inside_published", l.get());
 #endif
             fcn();
 #ifdef RKCOMMON_VERIF
@@ -108,6 +111,7 @@ namespace rkcommon {
             RKCOMMON_VERIF_POINT("loop.inside_cleared", l.get());
 #endif
           } else {
+            l->insideLoopBody = false;
 #ifdef RKCOMMON_VERIF
             RKCOMMON_VERIF_POINT("loop.before_lock", l.get());
 #endif
